@@ -307,13 +307,18 @@ pub fn run(ctx: &Ctx) -> i32 {
             variants.push((format!("boundary {:?}", b), m));
         }
         for k in [SpaceType::CONDITIONED, SpaceType::UNCONDITIONED, SpaceType::UNINHABITED] {
-            let mut m = full_model(true);
-            m.spaces[0].kind = k;
-            if let Some(e) = m.extra.as_mut() {
-                e[0].spacetype = k;
-                e[0].nextspacetype = Some(k);
+            // (with the flag that is omitted at its default and with the one that is written: the default of a field does
+            // not depend on its neighbours)
+            for inside in [true, false] {
+                let mut m = full_model(true);
+                m.spaces[0].kind = k;
+                m.spaces[0].inside_tenv = inside;
+                if let Some(e) = m.extra.as_mut() {
+                    e[0].spacetype = k;
+                    e[0].nextspacetype = Some(k);
+                }
+                variants.push((format!("space kind {:?}, inside the envelope: {}", k, inside), m));
             }
-            variants.push((format!("space kind {:?}", k), m));
         }
         for t in [Tilt::TOP, Tilt::SIDE, Tilt::BOTTOM] {
             let mut m = full_model(true);
